@@ -31,7 +31,10 @@ AlphaBracket == {"a", "-", "[", "]", "!", "^", ".", ":", "="}
 AlphaWild    == {"a", "b", ".", "*", "?", "[", "]", "!", "-"}
 LitSpecial   == {"*", "?", "[", "]", "!", "^", "-", ".", ":", "=", "\\"}
 LitCore      == {"*", "[", "]", "-", "!"}
-AlphaColl    == {"a", "b", "-", "[", "]"}
+AlphaColl    == {"a", "-", "[", "]"}
+AlphaCollT   == {"a", "b", "-", "[", "]", "!"}
+AlphaQ       == {"a", ".", "[", "]", "-", "!"}
+LitQ         == {"-", "]", "!"}
 CollMacros   == {"[.-.]", "[.^.]", "[.].]", "[=a=]"}
 AlphaClass   == {"a", "1", "-", "[", "]", "!"}
 StrFull      == {"a", "b", ".", "-", "]", "^"}
